@@ -551,3 +551,218 @@ Proof.
   destruct (Rle_bool_spec (fR v) (fR (wc - 0.5))) as [H|H]; [reflexivity|].
   rewrite Rlt_bool_true by exact H. reflexivity.
 Qed.
+
+(** ** more finite-result lemmas *)
+Lemma sub_fin x y : ffin x -> ffin y -> ffin (x - y) -> fR (x - y) = rnd (fR x - fR y).
+Proof.
+  intros Fx Fy Fr. unfold ffin, fR in *. rewrite sub_equiv in *.
+  generalize (Bminus_correct prec emax Hprec Hmax mode_NE (Prim2B x) (Prim2B y) Fx Fy).
+  cbn [round_mode]. destruct (Rlt_bool _ _).
+  - intros (H1 & _). exact H1.
+  - intros (H & _). apply overflow_not_finite in H. congruence.
+Qed.
+
+Lemma div_fin x y : fR y <> 0 -> ffin (x / y) -> fR (x / y) = rnd (fR x / fR y) /\ ffin x.
+Proof.
+  intros Ny Fr. unfold ffin, fR in *. rewrite div_equiv in *.
+  generalize (Bdiv_correct prec emax Hprec Hmax mode_NE (Prim2B x) (Prim2B y) Ny).
+  cbn [round_mode]. destruct (Rlt_bool _ _).
+  - intros (H1 & H2 & _). rewrite Fr in H2. auto.
+  - intros H. apply overflow_not_finite in H. congruence.
+Qed.
+
+(** ** a sufficient condition for the rescaled values to be finite *)
+Lemma fmt_bpow e : (-1074 <= e <= 1023)%Z -> fmt (bpow radix2 e) /\ Rabs (bpow radix2 e) < MAXP.
+Proof.
+  intros H. split.
+  - apply generic_format_bpow. unfold FLT_exp. change prec with 53%Z. change emax with 1024%Z. lia.
+  - rewrite Rabs_pos_eq by apply bpow_ge_0. apply bpow_lt. change emax with 1024%Z. lia.
+Qed.
+
+Lemma rescale_finite r x : ffin (slope r) -> ffin (intercept r) -> ffin x ->
+  Rabs (fR (slope r)) <= bpow radix2 1000 -> Rabs (fR (intercept r)) <= bpow radix2 1000 ->
+  Rabs (fR x) <= bpow radix2 16 ->
+  ffin (rescale_apply r x).
+Proof.
+  intros Fs Fi Fx Hs Hi Hx. unfold rescale_apply.
+  destruct (fmt_bpow 1016) as [F16 L16]; [lia|]. destruct (fmt_bpow 1017) as [F17 L17]; [lia|].
+  assert (Hp : Rabs (fR (slope r) * fR x) <= bpow radix2 1016).
+  { rewrite Rabs_mult. change 1016%Z with (1000 + 16)%Z. rewrite bpow_plus.
+    apply Rmult_le_compat; try apply Rabs_pos; assumption. }
+  destruct (mul_between (- bpow radix2 1016) (bpow radix2 1016) (fmt_opp _ F16) F16 (lt_opp _ L16) L16 _ _ Fs Fx) as (Fm & Bm & _).
+  { apply Rabs_le_inv. exact Hp. }
+  assert (H17 : bpow radix2 1017 = 2 * bpow radix2 1016).
+  { change 1017%Z with (1 + 1016)%Z. rewrite bpow_plus. reflexivity. }
+  assert (H1000 : bpow radix2 1000 <= bpow radix2 1016) by (apply bpow_le; lia).
+  apply Rabs_le_inv in Hi.
+  destruct (add_between (- bpow radix2 1017) (bpow radix2 1017) (fmt_opp _ F17) F17 (lt_opp _ L17) L17 _ _ Fm Fi) as (Fa & _); [lra|].
+  exact Fa.
+Qed.
+
+(** ** SIGMOID, with [exp] abstract *)
+Lemma fR_m4 : fR (-4)%float = -4 /\ ffin (-4)%float.
+Proof.
+  split; [|apply ffin_SF; reflexivity].
+  rewrite fR_SF. change (Prim2SF (-4)) with (S754_finite true 4503599627370496 (-50)).
+  unfold SF2R, F2R; cbn. lra.
+Qed.
+
+Lemma Prim2B_infinity : Prim2B infinity = B754_infinity false.
+Proof. rewrite infinity_equiv. apply Prim2B_B2Prim. Qed.
+
+Lemma div_by_infinity y : ffin y -> ffin (y / infinity) /\ fR (y / infinity) = 0.
+Proof.
+  unfold ffin, fR. rewrite div_equiv, Prim2B_infinity.
+  destruct (Prim2B y) as [s|s| |s m e H]; try discriminate; intros _; cbn; auto.
+Qed.
+
+Section SigmoidP.
+  Variable fexp : pfloat -> pfloat.
+  (** what is assumed of f64::exp: on finite arguments the result is +infinity (overflow) or a
+      finite non-negative number, and it is monotone (also across the overflow threshold) *)
+  Hypothesis exp_cases : forall a, ffin a -> fexp a = infinity \/ (ffin (fexp a) /\ 0 <= fR (fexp a)).
+  Hypothesis exp_mono : forall a b, ffin a -> ffin b -> ffin (fexp a) -> ffin (fexp b) ->
+    fR a <= fR b -> fR (fexp a) <= fR (fexp b).
+  Hypothesis exp_mono_inf : forall a b, ffin a -> ffin b -> fR a <= fR b -> fexp a = infinity -> fexp b = infinity.
+
+  Variables (ww wc ymax : pfloat).
+  Hypothesis Fy : ffin ymax.
+  Hypothesis Py : 0 <= fR ymax.
+
+  Definition sig_arg (v : pfloat) : pfloat := (-4 * (v - wc) / ww)%float.
+
+  Lemma sigmoid_unfold v : window_level_sigmoid fexp v ww wc ymax = (ymax / (1 + fexp (sig_arg v)))%float.
+  Proof. reflexivity. Qed.
+
+  (* the denominator, when exp did not overflow *)
+  Lemma denom v : ffin (fexp (sig_arg v)) -> 0 <= fR (fexp (sig_arg v)) -> ffin (1 + fexp (sig_arg v)) ->
+    1 <= fR (1 + fexp (sig_arg v)) /\ fR (1 + fexp (sig_arg v)) = rnd (1 + fR (fexp (sig_arg v))).
+  Proof.
+    intros Fe Pe Fd. rewrite (add_fin _ _ ffin_one Fe Fd), fR_one. split; [|reflexivity].
+    rewrite <- (round_generic radix2 fexp64 ZnearestE 1 fmt_1) at 1. apply rnd_le. lra.
+  Qed.
+
+  Lemma sigmoid_range v : ffin (sig_arg v) ->
+    (ffin (fexp (sig_arg v)) -> ffin (1 + fexp (sig_arg v))) ->
+    ffin (window_level_sigmoid fexp v ww wc ymax) /\ 0 <= fR (window_level_sigmoid fexp v ww wc ymax) <= fR ymax.
+  Proof.
+    intros Ft Fd. rewrite sigmoid_unfold. destruct (exp_cases _ Ft) as [Hinf | [Fe Pe]].
+    - rewrite Hinf. change (1 + infinity)%float with infinity.
+      destruct (div_by_infinity ymax Fy) as [F E]. split; [exact F | rewrite E; lra].
+    - destruct (denom v Fe Pe (Fd Fe)) as [Hd _].
+      destruct (div_between 0 (fR ymax) fmt_0 (fR_format _) lt_0 (fR_lt_emax _) ymax (1 + fexp (sig_arg v)) Fy) as (F & B & _).
+      + lra.
+      + split.
+        * apply Rmult_le_pos; [exact Py | apply Rlt_le, Rinv_0_lt_compat; lra].
+        * apply Rmult_le_reg_r with (fR (1 + fexp (sig_arg v))); [lra|].
+          unfold Rdiv. rewrite Rmult_assoc, Rinv_l by lra. nra.
+      + split; assumption.
+  Qed.
+
+  (* the argument of exp decreases when the input increases (positive width) *)
+  Lemma sig_arg_anti v1 v2 : ffin v1 -> ffin v2 -> ffin wc -> 0 < fR ww ->
+    ffin (sig_arg v1) -> ffin (sig_arg v2) -> fR v1 <= fR v2 -> fR (sig_arg v2) <= fR (sig_arg v1).
+  Proof.
+    intros F1 F2 Fc Hw Ft1 Ft2 Hv. unfold sig_arg in *.
+    destruct (div_fin _ _ (Rgt_not_eq _ _ Hw) Ft1) as [E1 Fm1].
+    destruct (div_fin _ _ (Rgt_not_eq _ _ Hw) Ft2) as [E2 Fm2].
+    destruct (mul_fin _ _ Fm1) as (M1 & _ & Fd1). destruct (mul_fin _ _ Fm2) as (M2 & _ & Fd2).
+    rewrite E1, E2, M1, M2, (sub_fin _ _ F1 Fc Fd1), (sub_fin _ _ F2 Fc Fd2).
+    destruct fR_m4 as [-> _].
+    apply rnd_le. unfold Rdiv. apply Rmult_le_compat_r; [apply Rlt_le, Rinv_0_lt_compat, Hw|].
+    apply rnd_le.
+    assert (rnd (fR v1 - fR wc) <= rnd (fR v2 - fR wc)) by (apply rnd_le; lra). lra.
+  Qed.
+
+  Lemma sigmoid_mono v1 v2 : ffin v1 -> ffin v2 -> ffin wc -> 0 < fR ww ->
+    ffin (sig_arg v1) -> ffin (sig_arg v2) ->
+    (ffin (fexp (sig_arg v1)) -> ffin (1 + fexp (sig_arg v1))) ->
+    (ffin (fexp (sig_arg v2)) -> ffin (1 + fexp (sig_arg v2))) ->
+    fR v1 <= fR v2 ->
+    fR (window_level_sigmoid fexp v1 ww wc ymax) <= fR (window_level_sigmoid fexp v2 ww wc ymax).
+  Proof.
+    intros F1 F2 Fc Hw Ft1 Ft2 Fd1 Fd2 Hv.
+    pose proof (sig_arg_anti v1 v2 F1 F2 Fc Hw Ft1 Ft2 Hv) as Ht.
+    pose proof (sigmoid_range v1 Ft1 Fd1) as [_ R1]. pose proof (sigmoid_range v2 Ft2 Fd2) as [_ R2].
+    revert R1 R2. rewrite !sigmoid_unfold.
+    destruct (exp_cases _ Ft1) as [Hinf1 | [Fe1 Pe1]].
+    { rewrite Hinf1. change (1 + infinity)%float with infinity.
+      destruct (div_by_infinity ymax Fy) as [_ ->]. intros _ R2. lra. }
+    destruct (exp_cases _ Ft2) as [Hinf2 | [Fe2 Pe2]].
+    { (* exp overflowed at the smaller argument: then also at the larger one *)
+      rewrite (exp_mono_inf _ _ Ft2 Ft1 Ht Hinf2) in Fe1.
+      unfold ffin in Fe1. rewrite Prim2B_infinity in Fe1. discriminate. }
+    intros _ _.
+    destruct (denom v1 Fe1 Pe1 (Fd1 Fe1)) as [Hd1 Ed1]. destruct (denom v2 Fe2 Pe2 (Fd2 Fe2)) as [Hd2 Ed2].
+    assert (Hdd : fR (1 + fexp (sig_arg v2)) <= fR (1 + fexp (sig_arg v1))).
+    { rewrite Ed1, Ed2. apply rnd_le. apply Rplus_le_compat_l. now apply exp_mono. }
+    destruct (div_bounded ymax (1 + fexp (sig_arg v1)) Fy) as [_ Y1]; [lra | |].
+    { pose proof (sigmoid_range v1 Ft1 Fd1) as [Ff _]. rewrite sigmoid_unfold in Ff.
+      destruct (div_fin _ _ (Rgt_not_eq _ _ (Rlt_le_trans _ _ _ Rlt_0_1 Hd1)) Ff) as [<- _]. apply fR_lt_emax. }
+    destruct (div_bounded ymax (1 + fexp (sig_arg v2)) Fy) as [_ Y2]; [lra | |].
+    { pose proof (sigmoid_range v2 Ft2 Fd2) as [Ff _]. rewrite sigmoid_unfold in Ff.
+      destruct (div_fin _ _ (Rgt_not_eq _ _ (Rlt_le_trans _ _ _ Rlt_0_1 Hd2)) Ff) as [<- _]. apply fR_lt_emax. }
+    rewrite Y1, Y2. apply rnd_le. unfold Rdiv. apply Rmult_le_compat_l; [exact Py|].
+    apply Rinv_le_contravar; lra.
+  Qed.
+End SigmoidP.
+
+(** ** a decidable, sound test for [ramp_ok] (exact arithmetic on mantissas/exponents)
+    every finite binary64 number is an integer multiple of 2^-1074 *)
+Definition sfZ (x : spec_float) : option Z :=
+  match x with
+  | S754_zero _ => Some 0%Z
+  | S754_finite s m e => if (-1074 <=? e)%Z then Some (cond_Zopp s (Zpos m) * 2 ^ (e + 1074))%Z else None
+  | _ => None
+  end.
+
+Lemma sfZ_spec x z : sfZ (Prim2SF x) = Some z -> ffin x /\ fR x = IZR z * bpow radix2 (-1074).
+Proof.
+  intros H. rewrite fR_SF. split.
+  - apply ffin_SF. destruct (Prim2SF x); try discriminate; reflexivity.
+  - destruct (Prim2SF x) as [s|s| |s m e]; try discriminate; cbn [sfZ] in H.
+    + inversion H. cbn. lra.
+    + destruct (Z.leb_spec (-1074) e) as [He|He]; [|discriminate]. inversion H; subst z. clear H.
+      unfold SF2R, F2R; cbn [Fnum Fexp]. rewrite mult_IZR, Rmult_assoc. f_equal.
+      change (2 ^ (e + 1074))%Z with (Zpower radix2 (e + 1074)).
+      rewrite IZR_Zpower by lia. rewrite <- bpow_plus. f_equal. lia.
+Qed.
+
+Definition ramp_okb (c w h lo hi : pfloat) : bool :=
+  match sfZ (Prim2SF c), sfZ (Prim2SF w), sfZ (Prim2SF h), sfZ (Prim2SF lo), sfZ (Prim2SF hi) with
+  | Some zc, Some zw, Some zh, Some zlo, Some zhi =>
+      (zc - zh <=? zlo)%Z && (zhi <=? zc + zh)%Z && (2 * zh <=? zw)%Z
+  | _, _, _, _, _ => false
+  end.
+
+Lemma ramp_okb_sound c w h lo hi : ramp_okb c w h lo hi = true -> ramp_ok c w h lo hi.
+Proof.
+  unfold ramp_okb.
+  destruct (sfZ (Prim2SF c)) as [zc|] eqn:Ec; [|discriminate].
+  destruct (sfZ (Prim2SF w)) as [zw|] eqn:Ew; [|discriminate].
+  destruct (sfZ (Prim2SF h)) as [zh|] eqn:Eh; [|discriminate].
+  destruct (sfZ (Prim2SF lo)) as [zlo|] eqn:Elo; [|discriminate].
+  destruct (sfZ (Prim2SF hi)) as [zhi|] eqn:Ehi; [|discriminate].
+  intros H. apply andb_prop in H. destruct H as [H H3]. apply andb_prop in H. destruct H as [H1 H2].
+  apply Z.leb_le in H1, H2, H3.
+  destruct (sfZ_spec _ _ Ec) as [Fc Rc]. destruct (sfZ_spec _ _ Ew) as [Fw Rw]. destruct (sfZ_spec _ _ Eh) as [Fh Rh].
+  destruct (sfZ_spec _ _ Elo) as [Flo Rlo]. destruct (sfZ_spec _ _ Ehi) as [Fhi Rhi].
+  assert (P : 0 < bpow radix2 (-1074)) by apply bpow_gt_0.
+  constructor; try assumption; rewrite ?Rc, ?Rw, ?Rh, ?Rlo, ?Rhi.
+  - rewrite <- Rmult_minus_distr_r. apply Rmult_le_compat_r; [lra|]. rewrite <- minus_IZR. now apply IZR_le.
+  - rewrite <- Rmult_plus_distr_r. apply Rmult_le_compat_r; [lra|]. rewrite <- plus_IZR. now apply IZR_le.
+  - rewrite <- Rmult_assoc. apply Rmult_le_compat_r; [lra|]. rewrite <- (mult_IZR 2). now apply IZR_le.
+Qed.
+
+Definition voi_okb (t : wl_transform) : bool :=
+  let ww := wl_width t in let wc := wl_center t in
+  match wl_fun t with
+  | Linear => ramp_okb (wc - 0.5) (ww - 1) ((ww - 1) / 2) (wc - 0.5 - (ww - 1) / 2) (wc - 0.5 + (ww - 1) / 2)
+  | LinearExact => ramp_okb wc ww (ww / 2) (wc - ww / 2) (wc + ww / 2)
+  | Sigmoid => false
+  end.
+
+Lemma voi_okb_sound t : voi_okb t = true -> voi_ok t.
+Proof.
+  unfold voi_okb, voi_ok, lin_ok, exact_ok. destruct (wl_fun t); [apply ramp_okb_sound | apply ramp_okb_sound | discriminate].
+Qed.
